@@ -13,10 +13,12 @@ SPEC = {
     "prop": "C23_prop.v",
     "groups": {
         "msg": ("mism_msg", "pf_msg"),
+        "site": ("mism_site", "pf_site"),
     },
     "trusted_base": [
         "hand-written model Model/Truncate.v of NewGivePeers/GiveBlocks/GiveTxns/AnnounceTxns/GetTxnsMessage and the truncate* helpers, compared on this run with the implementation (items kept, len(EncodeMessage), verdict of gnet sendMessage's length test)",
         "item sizes are data taken from the generated encodeSize functions (codecs are the subject of C21); the wire header 4+4 bytes is checked through the real EncodeMessage length on every case",
+        "call sites: the real process methods of GetBlocks/GetTxns/AnnounceTxns/GiveTxnsMessage run on a recording daemoner, and Daemon.BroadcastTransaction / broadcastBlock / sendRandomPeers / announceTxnHashes run on a real Daemon (real pex, connections, gnet pool offline) with MaxIncomingMessageLength != MaxOutgoingMessageLength; what reaches sendMessage / broadcastMessage / the connections' write queues is measured against MaxOutgoingMessageLength",
         "harness printer of inputs/outputs as Coq terms",
     ],
     "assumptions": [
